@@ -101,7 +101,7 @@ class Request:
     __slots__ = ("op", "text", "variables", "operation_name", "wseed",
                  "faults", "exp", "variant", "nonfinite", "configs",
                  "ninstr", "mws", "tracer", "skew", "preparsed", "index",
-                 "noloc",
+                 "noloc", "line_shift", "base_text",
                  "gen", "document", "repeat_of", "exp_snapshot", "l2", "root")
 
 
@@ -121,7 +121,6 @@ def _gen_request(draws, spec, bundle, idx, profile, want_mut, tier="quick",
         req.gen = prev.gen
         req.gen.revary(rs)
         req.op = prev.op
-        req.text = prev.text
         req.variables = dict(req.op.variables)
         req.operation_name = prev.operation_name
         req.variant = "normal"
@@ -133,6 +132,17 @@ def _gen_request(draws, spec, bundle, idx, profile, want_mut, tier="quick",
             req.document = prev.document
         req.wseed = rs.below(1 << 30, "wseed")
         req.nonfinite = False
+        req.line_shift = 0
+        req.base_text = prev.base_text
+        req.text = prev.base_text
+        if not req.preparsed and rs.chance(1, 3, "ws_variant"):
+            # ... or the same text behind a few more line breaks (and with
+            # trailing blanks): every location moves down accordingly
+            req.line_shift = 1 + rs.below(4, "ws_lines")
+            req.text = "\n" * req.line_shift + prev.base_text + " \n\t"
+        elif req.preparsed and prev.line_shift:
+            req.line_shift = prev.line_shift  # the very same Document object
+            req.text = prev.text
         if rs.chance(1, 3, "policy"):
             # the same document again, under a stricter validator list that
             # refuses it: must be refused, whatever was accepted before
@@ -145,12 +155,13 @@ def _gen_request(draws, spec, bundle, idx, profile, want_mut, tier="quick",
     req.variant = "normal"
     req.preparsed = False
     req.noloc = False
+    req.line_shift = 0
     if profile.get("variants") and rs.chance(1, 3, "variant"):
         # "truncated anywhere" and "corrupted in transit" reach the most
         # lexer / parser states per request: weighted up
         req.variant = ("syntax", "validation", "variables", "opname",
-                       "truncate", "flip", "preparsed")[
-            rs.weighted((1, 1, 2, 1, 4, 3, 1), "variant_kind")]
+                       "truncate", "flip", "preparsed", "dirnull")[
+            rs.weighted((1, 1, 2, 1, 4, 3, 1, 1), "variant_kind")]
     gen = OpGen(rs, spec, max_depth=2 + rs.below(2, "depth"),
                 budget=8 + 8 * rs.below(3, "budget"),
                 features={"prefer_vars": req.variant == "variables"})
@@ -171,6 +182,10 @@ def _gen_request(draws, spec, bundle, idx, profile, want_mut, tier="quick",
                 op.name = "Main"
             bad = Spread(nm)
         where.insert(rs.below(len(where) + 1, "bad_at"), bad)
+        if rs.chance(1, 3, "invalid_and_opname"):
+            # two stages could fail: validation comes first, and its outcome
+            # (errors, no data key) is what must be reported
+            op.operation_name = "NoSuchOperation"
     text = render(op, rs.below(4, "layout"), bool(rs.below(2, "frags_first")))
     req.op = op
     req.variables = dict(op.variables)
@@ -212,6 +227,17 @@ def _gen_request(draws, spec, bundle, idx, profile, want_mut, tier="quick",
     elif req.variant == "variables":
         if not _corrupt_variables(req, rs):
             req.variant = "normal"
+    elif req.variant == "dirnull":
+        # an explicit null for the nullable, defaulted variable feeding an
+        # ``if:`` of @skip / @include.  What the answer should be is not
+        # stated anywhere (not generated as a modelled request); that there
+        # IS a well-formed answer is C10's business.
+        dvars = [n for n, v in op.vars.items()
+                 if v.is_dir and not v.tstr.endswith("!")]
+        if dvars:
+            req.variables[dvars[rs.below(len(dvars), "dirnull_var")]] = None
+        else:
+            req.variant = "normal"
     elif req.variant == "opname":
         req.operation_name = "Nope"
     elif req.variant == "preparsed":
@@ -219,6 +245,12 @@ def _gen_request(draws, spec, bundle, idx, profile, want_mut, tier="quick",
         req.preparsed = True
         # parse(..., no_location=True): a document without source positions
         req.noloc = rs.chance(1, 3, "no_location")
+    req.base_text = text
+    if req.variant == "normal" and not req.preparsed and \
+            rs.chance(1, 6, "ws_first"):
+        # leading line breaks / trailing blanks around the document
+        req.line_shift = 1 + rs.below(4, "ws_lines")
+        text = "\n" * req.line_shift + text + " \n\t"
     req.text = text
     req.wseed = rs.below(1 << 30, "wseed")
     # (only uncorrupted requests get non-finite floats: for those the model
@@ -726,7 +758,8 @@ def _overlap(res, prop, config, bundle, spec, pair, ost, digest, sample):
             continue
         exp = r.exp_snapshot
         V.extend(oracles.check_response(("C04", "C08"), config, exp,
-                                        out.result))
+                                        out.result, locations=not r.noloc,
+                                        line_shift=r.line_shift))
         if r.op.kind == "mutation":
             V.extend(oracles.check_serial(config, exp, events, req_id=rid))
         V.extend(oracles.check_wellformed("execution", config, out.result,
@@ -971,7 +1004,8 @@ def _evaluate(res, prop, config, req, out, hooks):
                     "whole mutation: %r" % (out.exc,)))
             return
         V.extend(oracles.check_response(("C04", "C08"), config, exp,
-                                        out.result, locations=not req.noloc))
+                                        out.result, locations=not req.noloc,
+                                        line_shift=req.line_shift))
         if req.noloc:
             res.count("probe:document_without_locations")
         if req.op.kind == "mutation":
@@ -1015,10 +1049,19 @@ def _evaluate(res, prop, config, req, out, hooks):
                    "present" if out.result.data is not None else "absent")))
             return
         if got_class != want_class:
-            # the harness constructed a request of a known class
-            raise HarnessError(
-                "request variant %s classified as %s: %r / %r" % (
-                    req.variant, got_class, req.text, req.variables))
+            # the harness constructed a request that fails at a known stage
+            # (an unknown field or fragment, a payload of the wrong shape, an
+            # operation name the document lacks, broken syntax): answering
+            # from another stage -- or executing it -- is wrong
+            V.append(Violation(
+                ("C10",), "outcome_class", (req.variant, got_class),
+                "request built to fail at stage %r was answered as %s: %s; "
+                "text %r variables %r operation_name %r" % (
+                    want_stage, got_class,
+                    repr(getattr(out.result, "errors", None))[:200],
+                    req.text[:300],
+                    req.variables, req.operation_name)))
+            return
     res.count("outcome:" + got_class)
     V.extend(oracles.check_wellformed(got_stage, config, out.result,
                                       req.text, None))
